@@ -4,32 +4,54 @@ open Lean
 namespace PewDriver.C16
 open PewDriver Pew.Export
 
-/-- values are bit tokens (integers); the opaque printer/parser pair of the model is
-instantiated with the decimal string of the token -/
-def fmtTok (t : Int) : Str := (toString t).toList
-def parseTok (s : Str) : Option Int := (String.ofList s).toInt?
+/-- number tokens stay opaque on the Lean side: the printer is the identity on the token strings
+the harness hands over (`'%.18g' % x`, `repr(x)`, …); conversion to floats is done by the harness
+with Python's `float` -/
+def tokFmt (t : String) : Str := t.toList
 
 def chunk {α} (c : Nat) : Nat → List α → List (List α)
   | 0, _ => []
   | r + 1, l => l.take c :: chunk c r (l.drop c)
 
-def jLoaded : Option (List Nat × List Int) → Json
+def jFields : Option (List Nat × List Str) → Json
   | none => jObj [("raises", jBool true)]
-  | some (sh, d) => jObj [("shape", jList jNat sh), ("data", jList jInt d)]
+  | some (sh, d) => jObj [("shape", jList jNat sh), ("fields", jList (fun f => jStr (String.ofList f)) d)]
 
-def getImg (req : Json) : R (Nat × Nat × List (List Int)) := do
+/-- what the loader model makes of a file: the field table, the warning flag -/
+def jLoad (file : Str) : Json :=
+  jObj [("loaded", jFields (loadFields 2 file)), ("warns", jBool (loadWarns file))]
+
+def getImg (req : Json) : R (Nat × Nat × List (List String)) := do
   let r ← getNat req "rows"
   let c ← getNat req "cols"
-  let data ← getList asInt req "data"
-  if data.length ≠ r * c then throw "data/shape mismatch"
+  let toks ← getList asStr req "tokens"
+  if toks.length ≠ r * c then throw "tokens/shape mismatch"
   if r = 0 ∨ c = 0 then throw "empty image"
-  pure (r, c, chunk c r data)
+  pure (r, c, chunk c r toks)
 
 def asChar (j : Json) : R Char := do
   let s ← asStr j
   match s.toList with
   | [c] => pure c
   | _ => throw s!"expected one character, got {s}"
+
+/-- the hypothesis `Clean.chars`/`Clean.nonempty` of the theorems, decided for the tokens of a case -/
+def tokenClean (t : String) : Bool :=
+  !t.isEmpty && t.toList.all fun c => c ≠ ',' && c ≠ ';' && c ≠ '\t' && c ≠ '\n' && c ≠ '\r' && c ≠ '#' && c ≠ ' '
+
+def asEol (j : Json) : R Eol := do
+  match (← asStr j) with
+  | "\n" => pure .lf
+  | "\r\n" => pure .crlf
+  | "\r" => pure .cr
+  | "" => pure .eof
+  | s => throw s!"bad line terminator {s.quote}"
+
+def asFLine (j : Json) : R (FLine String) := do
+  let cells ← getList (fun c => do
+    pure ((← getNat c "before"), (← getStr c "token"), (← getNat c "after"))) j "cells"
+  pure { indent := ← getNat j "indent", cells := cells, seps := ← getList asChar j "seps",
+         comment := (← fld j "comment" >>= asOpt asStr).map String.toList, eol := ← fld j "eol" >>= asEol }
 
 def jWord : Word Int → Json
   | .len n => jNat n
@@ -38,51 +60,97 @@ def jWord : Word Int → Json
 def handle (op : String) (req : Json) : R Json := do
   match op with
   | "c16.text" =>
+    -- `file`: the characters pewlib's `save` wrote; `tokens`: the values printed with '%.18g' by Python
     let (r, c, img) ← getImg req
-    let header ← fld req "header" >>= asOpt asStr
-    let file := saveText fmtTok (header.map String.toList) img
-    pure (jObj [("model", jLoaded (loadText parseTok 2 file)),
-                ("spec", jLoaded (some ([r, c], img.flatten)))])
+    let header ← getStr req "header"
+    let file := (← getStr req "file").toList
+    let rendered := saveText tokFmt header.toList img
+    pure (jObj [("rendered", jStr (String.ofList rendered)),
+                ("clean", jBool (img.all (·.all tokenClean) && !header.toList.contains '\r')),
+                ("real", jLoad file),                       -- the loader model on the real file
+                ("model", jLoad rendered),                  -- the loader model on the model's own rendering
+                ("spec", jFields (some ([r, c], (img.map (·.map tokFmt)).flatten)))])
   | "c16.delims" =>
     let (r, c, img) ← getImg req
     let seps ← getList (asList asChar) req "seps"
+    let file := (← getStr req "file").toList
     if seps.length ≠ r then throw "one separator list per row"
     if seps.any (fun ss => ss.length + 1 ≠ c) then throw "separators/columns mismatch"
     if seps.any (fun ss => ss.any (fun ch => ch ≠ ',' ∧ ch ≠ ';' ∧ ch ≠ '\t')) then throw "bad separator"
-    let file := saveWith fmtTok seps img
-    pure (jObj [("model", jLoaded (loadText parseTok 2 file)),
-                ("spec", jLoaded (some ([r, c], img.flatten)))])
+    let rendered := saveWith tokFmt seps img
+    pure (jObj [("rendered", jStr (String.ofList rendered)),
+                ("clean", jBool (img.all (·.all tokenClean))),
+                ("real", jLoad file), ("comma", jStr (String.ofList (normalise file))), ("real_comma", jLoad (normalise file)),
+                ("model", jLoad rendered),
+                ("spec", jFields (some ([r, c], (img.map (·.map tokFmt)).flatten)))])
+  | "c16.foreign" =>
+    -- a file of the class "delimiter variant of an image", described line by line
+    let lines ← getList asFLine req "lines"
+    let file := (← getStr req "file").toList
+    let rendered := foreignFile tokFmt lines
+    let img := foreignImage lines
+    let cols := match img with | [] => 0 | row :: _ => row.length
+    let inClass := foreignOk tokFmt lines && img.all (·.all tokenClean) && !img.isEmpty
+      && img.all (fun row => row.length == cols)
+    pure (jObj [("rendered", jStr (String.ofList rendered)), ("in_class", jBool inClass),
+                ("real", jLoad file), ("comma", jStr (String.ofList (normalise file))), ("real_comma", jLoad (normalise file)),
+                ("model", jLoad rendered),
+                ("spec", jFields (some ([img.length, cols], (img.map (·.map tokFmt)).flatten)))])
+  | "c16.rawtext" =>
+    -- any text at all: what the loader model does with it, and the same text with `;`/tab replaced
+    let file := (← getStr req "file").toList
+    pure (jObj [("real", jLoad file), ("comma", jStr (String.ofList (normalise file))), ("real_comma", jLoad (normalise file))])
   | "c16.vtk" =>
+    -- `endian`: sys.byteorder's name; `spacing`: str(spacing[i]) as Python prints them; `head`: the header text
+    -- of the real file up to and including the marker `_`
     let n0 ← getNat req "n0"
     let n1 ← getNat req "n1"
     let n2 ← getNat req "n2"
+    let endian := (← getStr req "endian").toList
+    let sp ← getList asStr req "spacing"
+    let spacing ← match sp with
+      | [a, b, c] => pure (a.toList, b.toList, c.toList)
+      | _ => throw "three spacing tokens expected"
+    let realHead := (← getStr req "head").toList
     let fields ← getList (fun f => do
       let nm ← getStr f "name"
       let data ← getList asInt f "data"
       if data.length ≠ n0 * n1 * n2 then throw "data/shape mismatch"
       let arr := data.toArray
-      let v : Vol Int := { n0 := n0, n1 := n1, n2 := n2, get := fun i j k => arr.getD ((i * n1 + j) * n2 + k) 0 }
-      pure (nm, v)) req "fields"
-    let mblocks := fields.map (fun f => vtkBlock f.2)
-    let sblocks := fields.map (fun f => vtkBlockSpec f.2)
-    let moffs := offsetsFrom 0 (mblocks.map List.length)
-    let soffs := offsetsFrom 0 (fields.map (fun _ => n1 * n0 * n2))
-    let arrays := fun (names : List String) (offs : List Nat) (blocks : List (List Int)) =>
-      jList (fun (x : String × Nat × List Int) =>
-        jObj [("name", jStr x.1), ("offset", jNat x.2.1), ("nbytes", jNat (x.2.2.length * 8)),
-              ("values", jList jInt x.2.2)]) (List.zip names (List.zip offs blocks))
-    let shaped := match fields with
-      | [] => [n1, n0, n2]
-      | f :: _ => let w := swap01 (flip0 f.2); [w.n0, w.n1, w.n2]
-    let mnames := fields.map (fun f => String.ofList (unescape (escapeMech f.1.toList)))
-    let snames := fields.map (fun f => f.1)
-    pure (jObj [
-      ("model", jObj [("extent", jList jNat shaped), ("arrays", arrays mnames moffs mblocks),
-                      ("appended", jList jWord (appended mblocks)),
-                      ("escaped", jList jStr (fields.map fun f => String.ofList (escapeMech f.1.toList)))]),
-      ("spec", jObj [("extent", jList jNat [n1, n0, n2]), ("arrays", arrays snames soffs sblocks),
-                     ("appended", jList jWord (appended sblocks)),
-                     ("escaped", jList jStr (fields.map fun f => String.ofList (escapeSpec f.1.toList)))])])
+      pure ({ name := nm.toList, get := fun i j k => arr.getD ((i * n1 + j) * n2 + k) 0 } : Field Int)) req "fields"
+    let img : Image Int := { n0 := n0, n1 := n1, n2 := n2, fields := fields }
+    let jS := fun (x : Str) => jStr (String.ofList x)
+    let jMeta := fun (m : VtkMeta) => jObj [
+      ("file_type", jS m.fileType), ("version", jS m.version), ("byte_order", jS m.byteOrder),
+      ("header_type", jS m.headerType), ("whole", jList jNat m.whole), ("piece", jList jNat m.piece),
+      ("origin", jList jS m.origin), ("spacing", jList jS m.spacing), ("scalars", jS m.scalars),
+      ("encoding", jS m.encoding),
+      ("arrays", jList (fun (a : ArrayMeta) => jObj [("name", jS a.name), ("type", jS a.type), ("format", jS a.format),
+                                                      ("offset", jNat a.offset)]) m.arrays)]
+    let jBlock := fun (b : Option (Nat × List Int)) => match b with
+      | some (n, vs) => jObj [("nbytes", jNat n), ("values", jList jInt vs)]
+      | none => jObj [("unreadable", jBool true)]
+    let specMeta := vtkMetaSpec endian spacing img
+    let specBlocks := fields.map fun f => vtkBlockSpec (img.vol f)
+    let specSide := jObj [("meta", jMeta specMeta),
+      ("blocks", jList (fun (b : List Int) => jBlock (some (b.length * 8, b))) specBlocks),
+      ("appended", jList jWord (appended specBlocks))]
+    let okB := headOkB endian spacing (fields.map (·.name))
+    -- the Lean reader on the real header text (null: the text is outside the subset the reader handles)
+    let realMeta := if inReaderSubset realHead then jOpt jMeta (vtkParse realHead) else .null
+    match vtkRender endian spacing img with
+    | none =>
+      pure (jObj [("rendered", .null), ("model", jObj [("raises", jBool true)]), ("spec", specSide),
+                  ("head_ok", jBool okB), ("real_meta", realMeta)])
+    | some file =>
+      let modelSide := match vtkParse file.head with
+        | none => jObj [("unreadable", jBool true)]
+        | some m => jObj [("meta", jMeta m),
+            ("blocks", jList (fun (a : ArrayMeta) => jBlock (readBlock file.body a.offset)) m.arrays),
+            ("appended", jList jWord file.body)]
+      pure (jObj [
+        ("rendered", jObj [("head", jS file.head), ("words", jList jWord file.body), ("tail", jS file.tail)]),
+        ("model", modelSide), ("spec", specSide), ("head_ok", jBool okB), ("real_meta", realMeta)])
   | _ => throw s!"unknown op {op}"
 
 end PewDriver.C16
